@@ -346,7 +346,7 @@ pub fn run_check(prop: &str, tier: &str) -> i32 {
             bigrecovery::run(&["C11"], &mut report);
         }
         "C12" => {
-            let s = pick(&["ts-mem", "mem-wide", "ts-mem-limit", "disk-wide-v2", "ts-disk-v1", "ts-disk-v2", "ts-disk-v3", "mem-limit", "mem-core", "disk-limit"], thorough);
+            let s = pick(&["ts-mem", "mem-wide", "ts-mem-limit", "disk-wide-v2", "ts-disk-v1", "ts-disk-v2", "ts-disk-v3", "ts-oneshard-mem", "ts-oneshard-v3", "ts-oneshard-v2", "mem-limit", "mem-core", "disk-limit"], thorough);
             seq_check(prop, tier, s, &["C12"], budget * 0.6, &mut report);
             // automatic timestamps after *crash* recovery: every recovered key accepts an automatic write
             let cs: Vec<Suite> = suites::crash_suites(thorough).into_iter().filter(|s| ["crash-core-v3", "crash-core-v2", "crash-edge-v1", "crash-ttl-v3"].contains(&s.name.as_str())).collect();
